@@ -70,16 +70,23 @@ func runC17(e *Env) {
 			e.Step()
 			switch o.Kind {
 			case 0:
-				n, err := tr.Write(o.Data[0])
+				buf := append([]byte(nil), o.Data[0]...)
 				written = append(written, o.Data[0]...)
+				n, err := tr.Write(buf)
+				poison(buf) // a Writer must not retain p: the caller reuses its buffer at once
 				o.done(int64(n), err, len(conn.Wire), len(written))
 			case 1:
 				bufs := make(transport.Buffers, len(o.Data))
+				keep := make([][]byte, len(o.Data))
 				for i, d := range o.Data {
-					bufs[i] = d
+					bufs[i] = append([]byte(nil), d...)
+					keep[i] = bufs[i]
 					written = append(written, d...)
 				}
 				n, err := tr.Writev(bufs)
+				for _, b := range keep {
+					poison(b) // like channel.writeOnce, which recycles its packets right after Writev
+				}
 				o.done(n, err, len(conn.Wire), len(written))
 			case 2:
 				err := tr.Flush()
